@@ -67,7 +67,25 @@ def check(case):
     opts = dict(case.get("options") or {})      # documented solver keywords (hmax, atol, rtol) of the deterministic simulator
     with specmod.quiet():
         M = specmod.to_model(sp)
-        if case["surface"] == "model_api":
+        if case.get("loose_call_before"):
+            # an earlier call - on another model - passed its own (loose) tolerances: they belong to that call only
+            Mloose = specmod.to_model(sp)
+            py_simulate_model(tp[:3] if len(tp) > 3 else tp, Model=Mloose, atol=1e-2, rtol=1e-2)
+        if case["surface"] == "interface_reused":
+            # one interface used for two runs: first with every named parameter tripled (for the pulse family on a
+            # two-point grid, which makes the integrator exhaust its first step allowance and retry), then - after
+            # Model.set_params restored the values - the measured run
+            orig = {p_: float(v_) for p_, v_ in sp["params"].items()}
+            M.set_params({p_: 3.0 * v_ for p_, v_ in orig.items()})
+            I = ModelCSimInterface(M)
+            first_grid = np.array([tp[0], tp[-1]]) if case["family"] == "P" else (tp[:3] if len(tp) > 3 else tp)
+            py_simulate_model(first_grid, Interface=I, return_dataframe=False, **opts)
+            M.set_params(orig)
+            r = py_simulate_model(tp, Interface=I, return_dataframe=False, **opts)
+            order = [M.get_species2index()[s] for s in names]
+            got = np.asarray(r.py_get_result(), dtype=float)[:, order]
+            tcol = np.asarray(r.py_get_timepoints(), dtype=float)
+        elif case["surface"] == "model_api":
             df = py_simulate_model(tp, Model=M, **opts)
             got = df[names].to_numpy(dtype=float)
             tcol = df["time"].to_numpy(dtype=float)
@@ -119,6 +137,8 @@ def check(case):
     res.label("err/tol<1e-3" if ratio < 1e-3 else ("err/tol<1e-1" if ratio < 1e-1 else "err/tol>=1e-1"))
     nonuniform = len(set(np.round(np.diff(tp), 12))) > 1
     delayed = any(rx.get("delay") for rx in sp["reactions"])
+    if case.get("loose_call_before"):
+        res.label("after_a_call_with_its_own_tolerances")
     res.label("family:" + case["family"], "surface:" + case["surface"], *(["nonuniform_grid"] if nonuniform else []),
               *(["delayed_part"] if delayed else []),
               *(["rate_that_changes_sign"] if any(rx.get("signed") for rx in sp["reactions"]) else []))
@@ -221,7 +241,9 @@ def pulse_case(draw):
     n = draw(st.integers(5, 40))
     grid = [T * i / (n - 1) for i in range(n)]
     return {"kind": "ode", "family": "P", "spec": b.spec(x0), "grid": grid, "width": w, "options": {"hmax": w / 4},
-            "hmax_by_setter": draw(st.booleans()), "surface": draw(st.sampled_from(["model_api", "simulator"]))}
+            "hmax_by_setter": draw(st.booleans()),
+            "surface": draw(st.sampled_from(["model_api", "simulator", "interface_reused", "interface_reused"])),
+            "loose_call_before": draw(st.integers(0, 3)) == 0}
 
 
 @st.composite
@@ -243,8 +265,8 @@ def cases(draw):
         for d in draw(st.permutations(incs)):
             grid.append(grid[-1] + d * scale)
     return {"kind": "ode", "family": fam, "spec": sp, "grid": grid,
-            "surface": draw(st.sampled_from(["model_api", "simulator", "simulator_batch"])),
-            "decoy_runs": draw(st.booleans())}
+            "surface": draw(st.sampled_from(["model_api", "simulator", "simulator_batch", "interface_reused"])),
+            "decoy_runs": draw(st.booleans()), "loose_call_before": draw(st.integers(0, 3)) == 0}
 
 
 def search(ctx):
